@@ -623,8 +623,7 @@ class MultiGeoPolygon(MultiShapeBase, PolygonLikeMixin, SimpleShapeMixin):
             holes = []
             if len(linear_rings) > 1:
                 for hole in linear_rings[1:]:
-                    coords = cls._parse_wkt_linear_ring(wkt_str, hole)
-                    holes.append(GeoPolygon(coords))
+                    holes.append(GeoPolygon(cls._parse_wkt_linear_ring(wkt_str, hole)))
 
             shapes.append(GeoPolygon(coords, holes=holes or None))
 
